@@ -222,18 +222,47 @@ theorem C04_order_partial (u : Decls.Unit) (w : Wf u) (hg : GroupMonotone u) (ds
       refine idxOf_filter_mono w.nodup _ ht'.1 hs'.1 (by simp [hc]) (by simp) ?_
       rw [htn]; exact hw
 
-/-- After the inner scopes have been merged into the routine scope: all names are distinct, so every
-written name denotes (in the merged, single scope) the symbol object it was written for; every entry
-is one of the original objects with its kind unchanged; it keeps its name unless it is renamable, and
-a new name never hides a name of the host scope. -/
+/-- After the inner scopes have been merged into the routine scope (or a callee's table into the
+caller's, as `InlineTrans` does): all names are distinct, so every written name denotes (in the
+merged, single scope) the symbol object it was written for; every entry is one of the original objects
+with its kind unchanged; it keeps its name unless it is renamable AND its name does not occur —
+compared after `norm` (lower-casing) — in a CodeBlock of its own scope; a new name never hides a name
+of the host scope.  `CbSub`: the CodeBlocks of the merged-in scopes lie below the receiving node. -/
 theorem C04_merge_rename_no_capture {N : Type} [DecidableEq N] (fresh : List N → N → N)
-    (hfresh : ∀ ex root, fresh ex root ∉ ex) (outer : List N) (self : List (MSym N))
+    (hfresh : ∀ ex root, fresh ex root ∉ ex) (norm : N → N) (outer cbSelf : List N) (self : List (MSym N))
     (inner : List (List (MSym N))) (r : List (MSym N)) (hnd : (mnames self).Nodup)
-    (h : mergeScopes fresh outer self inner = some r) :
+    (hs1 : CbSub cbSelf self) (hs2 : CbSub cbSelf inner.flatten)
+    (h : mergeScopes fresh norm outer cbSelf self inner = some r) :
     (mnames r).Nodup ∧ (∀ s' ∈ r, resolve r s'.name = some s'.id) ∧
-      (∀ s' ∈ r, ∃ x ∈ self ++ inner.flatten, Prov outer x s') := by
-  obtain ⟨h1, h2⟩ := mergeScopes_spec fresh hfresh inner self r hnd h
+      (∀ s' ∈ r, ∃ x ∈ self ++ inner.flatten, Prov norm outer x s') := by
+  obtain ⟨h1, h2⟩ := mergeScopes_spec fresh hfresh norm inner self r hnd hs1 hs2 h
   exact ⟨h1, fun s' hs' => resolve_of_nodup h1 hs', h2⟩
+
+/-- A name that occurs in a CodeBlock keeps denoting the same object: a symbol whose name occurs
+(case-insensitively) in a CodeBlock of its scope is written under its original name, and that name
+denotes it in the merged scope. -/
+theorem C04_codeblock_names_not_captured {N : Type} [DecidableEq N] (fresh : List N → N → N)
+    (hfresh : ∀ ex root, fresh ex root ∉ ex) (norm : N → N) (outer cbSelf : List N) (self : List (MSym N))
+    (inner : List (List (MSym N))) (r : List (MSym N)) (hnd : (mnames self).Nodup)
+    (hs1 : CbSub cbSelf self) (hs2 : CbSub cbSelf inner.flatten)
+    (h : mergeScopes fresh norm outer cbSelf self inner = some r) :
+    ∀ s' ∈ r, ∃ x ∈ self ++ inner.flatten, x.id = s'.id ∧
+      (mentioned norm x.cb x.name → s'.name = x.name ∧ resolve r x.name = some x.id) := by
+  obtain ⟨h1, h2, h3⟩ := C04_merge_rename_no_capture fresh hfresh norm outer cbSelf self inner r hnd hs1 hs2 h
+  intro s' hs'
+  obtain ⟨x, hx, hid, _, _, hn⟩ := h3 s' hs'
+  refine ⟨x, hx, hid, fun hm => ?_⟩
+  rcases hn with hn | ⟨_, hnm, _⟩
+  · exact ⟨hn, by rw [← hn, hid]; exact h2 s' hs'⟩
+  · exact absurd hm hnm
+
+/-- `SymbolTable.merge` as used by `InlineTrans` (one table into another): same guarantees. -/
+theorem C04_merge_table_no_capture {N : Type} [DecidableEq N] (fresh : List N → N → N)
+    (hfresh : ∀ ex root, fresh ex root ∉ ex) (norm : N → N) (outer cbSelf : List N)
+    (self other r : List (MSym N)) (hnd : (mnames self).Nodup) (hs1 : CbSub cbSelf self)
+    (hs2 : CbSub cbSelf other) (h : mergeTable fresh norm outer cbSelf self other = some r) :
+    (mnames r).Nodup ∧ ∀ s' ∈ r, ∃ x ∈ self ++ other, Prov norm outer x s' :=
+  mergeTable_spec fresh hfresh norm hnd hs1 hs2 h
 
 /-! ## non-vacuity and sanity evaluations -/
 
@@ -281,7 +310,20 @@ theorem freshNat_fresh (ex : List Nat) (root : Nat) : freshNat ex root ∉ ex :=
   have := key ex root _ h
   unfold freshNat at this; omega
 
-example : mergeScopes freshNat [50] [⟨0, 1, .free⟩, ⟨1, 2, .fixed⟩] [[⟨2, 1, .free⟩, ⟨3, 2, .free⟩]]
-    = some [⟨0, 1, .free⟩, ⟨1, 2, .fixed⟩, ⟨2, 51, .free⟩, ⟨3, 52, .free⟩] := by decide
+example : mergeScopes freshNat id [50] [] [⟨0, 1, .free, []⟩, ⟨1, 2, .fixed, []⟩]
+    [[⟨2, 1, .free, []⟩, ⟨3, 2, .free, []⟩]]
+    = some [⟨0, 1, .free, []⟩, ⟨1, 2, .fixed, []⟩, ⟨2, 51, .free, []⟩, ⟨3, 52, .free, []⟩] := by decide
+
+/-- names are (spelling, case) pairs here: `norm` forgets the case.  The caller's local `tmp`(id 0) is
+printed by a CodeBlock as `Tmp`; the callee imports a different `tmp`(id 1): the merge is refused … -/
+def normPair (n : Nat × Nat) : Nat × Nat := (n.1, 0)
+def freshPair (ex : List (Nat × Nat)) (root : Nat × Nat) : Nat × Nat := (freshNat (ex.map Prod.fst) root.1, 0)
+
+example : mergeTable freshPair normPair [] [(7, 1)] [⟨0, (7, 0), .free, [(7, 1)]⟩] [⟨1, (7, 0), .shared, []⟩]
+    = none := by decide
+/-- … whereas a guard that compares the spellings without normalising them (`norm = id`, the seeded
+mutation of `rename_symbol`) renames the local, and `Tmp` in the CodeBlock is captured by the import -/
+example : mergeTable freshPair id [] [(7, 1)] [⟨0, (7, 0), .free, [(7, 1)]⟩] [⟨1, (7, 0), .shared, []⟩]
+    = some [⟨0, (8, 0), .free, [(7, 1)]⟩, ⟨1, (7, 0), .shared, []⟩] := by decide
 
 end C04
